@@ -161,7 +161,11 @@ fn backend<B: Backend>(opts: &Opts, rep: &mut Report) {
         let stream = format!("c12.{}.{}", B::NAME, p.name());
         let mut rng = Rng::derive(opts.seed, &stream, 0);
         let kp = KeyPair::<B>::gen_for(p, &mut rng);
-        let other = KeyPair::<B>::gen_for(p, &mut rng);
+        // "another key" must really be another one (v1 draws RSA keys from a small pool)
+        let mut other = KeyPair::<B>::gen_for(p, &mut rng);
+        while other.raw().1 == kp.raw().1 {
+            other = KeyPair::<B>::gen_for(p, &mut rng);
+        }
         let mut controls = 0u64;
         for &len in if opts.thorough() { &[0usize, 1, 17, 64, 200][..] } else { &[0usize, 17, 64][..] } {
             for footer in [&b""[..], &b"ftr"[..]] {
